@@ -556,14 +556,23 @@ class Worker:
         # Cancel any open tasks
         # (iterate over a copy: self.cancel removes from the list)
         for mailbox_id in list(self._active_task.owned_mailboxes):
+            box = self._mailboxes.get(mailbox_id)
+            if box is None:
+                # Dropped meanwhile by a cancel handled on the incoming
+                # thread: this task is itself being cancelled, and that
+                # cancel already covers its children.
+                continue
+
             # If task is complete, simply discard result
-            if mailbox_id in self._mailboxes:
-                if self._mailboxes[mailbox_id].ready:
-                    self._mailboxes.pop(mailbox_id)
-                    continue
+            if box.ready:
+                self._mailboxes.pop(mailbox_id, None)
+                continue
 
             # Otherwise send a cancel message
-            self.cancel(RuntimeFuture(mailbox_id))
+            try:
+                self.cancel(RuntimeFuture(mailbox_id))
+            except KeyError:
+                pass  # Dropped by the incoming thread just now, see above
 
     def _get_desired_result(self, task: RuntimeTask) -> Any:
         """Retrieve the task's desired result from the mailboxes."""
